@@ -426,9 +426,19 @@ def ssii(v1: Scalar, v2: Scalar, v3: int, v4: int) -> bool:
     return go({1: v1, 2: v2, 3: v3, 4: v4})
 
 
+def okl(l):
+    """list elements are bounded too when the template can fail to resolve: the error message prints the receiver"""
+    if not H.P('small', False):
+        return True
+    for x in l:
+        if not small(x):
+            return False
+    return True
+
+
 def l1(l: List[int]) -> bool:
     """
-    pre: len(l) <= H.P('llen', 3)
+    pre: len(l) <= H.P('llen', 3) and okl(l)
     pre: H.fresh(l)
     post: _
     """
@@ -437,7 +447,7 @@ def l1(l: List[int]) -> bool:
 
 def l2(l: List[int], v2: Scalar) -> bool:
     """
-    pre: len(l) <= H.P('llen', 3) and ok(v2, 2)
+    pre: len(l) <= H.P('llen', 3) and ok(v2, 2) and okl(l)
     pre: H.fresh(l, v2)
     post: _
     """
@@ -446,7 +456,7 @@ def l2(l: List[int], v2: Scalar) -> bool:
 
 def lsi(l: List[int], v2: Scalar, v3: int) -> bool:
     """
-    pre: len(l) <= H.P('llen', 2) and ok(v2, 2) and ok(v3, 3)
+    pre: len(l) <= H.P('llen', 2) and ok(v2, 2) and ok(v3, 3) and okl(l)
     pre: H.fresh(l, v2, v3)
     post: _
     """
@@ -665,6 +675,7 @@ MODELS['map_in_list'] = m_map_in_list
 SAMPLES = {'list': (1, 2), 'dict': yutils.FrozenDict({'a': 1})}
 SEL_MODULES = ('yaql.standard_library.regex', 'yaql.standard_library.date_time')
 SKIP_NAMES = {'tick', 'probeMethod', 'probeFunc'}
+SEL_NAMES = {'int', 'float', 'str', 'random'}    # string<->number conversions / random source: values by selection
 
 
 def sweep_catalogue():
@@ -709,7 +720,7 @@ def sweep_catalogue():
                         for kind, sample in SAMPLES.items():
                             if any(b[0].value_type.check(sample, L.CTX, L.ENG) for fd, b in mapped):
                                 firsts.append(kind)
-                        use_sel = total >= 3 or any(fd.payload.__module__ in SEL_MODULES for fd, b in mapped)
+                        use_sel = total >= 3 or name in SEL_NAMES or any(fd.payload.__module__ in SEL_MODULES for fd, b in mapped)
                         for first in firsts:
                             if use_sel and first != 'scalar':
                                 continue
